@@ -77,4 +77,81 @@ def accessesOf (ops : List OpDesc) (stor : List Nat) (cmds : List Cmd) : List Re
       rT := c.op, rB := if c.op = 0 then 0 else stor.getD (c.op - 1) 0,
       ra := c.ifm.s.h.toNat, rb := (c.ifm.s.h + ext).toNat }
 
+theorem frontier_ge (p H b : Int) (hp : 1 ≤ p) (hb : b ≤ H) : b ≤ frontier p H b := by
+  unfold frontier
+  have h1 := Int.mul_ediv_add_emod (b + p - 1) p
+  have h2 := Int.emod_lt_of_pos (b + p - 1) (by omega : 0 < p)
+  have e : (b + p - 1) / p * p = p * ((b + p - 1) / p) := Int.mul_comm _ _
+  omega
+
+
 end VelaVerif.Cascade
+
+namespace VelaVerif.Receptive
+
+theorem Mem.get_set_same (m : Mem) (t s r : Nat) : (m.set t s r).get t s = some r := by
+  simp [Mem.get, Mem.set]
+
+theorem Mem.get_set_other (m : Mem) (t s s' r : Nat) (h : s' ≠ s) : (m.set t s r).get t s' = m.get t s' := by
+  unfold Mem.get Mem.set
+  have h1 : ((t, s) == (t, s')) = false := by simp; omega
+  rw [List.find?_cons]
+  simp only [h1]
+  rw [List.find?_filter]
+  have hf : (fun a : (Nat × Nat) × Nat => decide ((a.1 != (t, s)) = true ∧ (a.1 == (t, s')) = true)) = (fun e => e.1 == (t, s')) := by
+    funext e
+    by_cases he : e.1 = (t, s')
+    · have hne : ¬ ((t, s') = (t, s)) := by simp; omega
+      simp [he, hne]
+    · simp [he]
+  rw [hf]
+
+/-- congruent and smaller means at least one buffer height smaller -/
+theorem lt_congr_add_le (B r P : Nat) (hB : 0 < B) (hm : r % B = P % B) (hlt : r < P) : r + B ≤ P := by
+  have h1 := Nat.div_add_mod P B
+  have h2 := Nat.div_add_mod r B
+  have hq : r / B < P / B := by
+    by_contra hc
+    have : B * (P / B) ≤ B * (r / B) := Nat.mul_le_mul_left B (by omega)
+    omega
+  have : B * (r / B + 1) ≤ B * (P / B) := Nat.mul_le_mul_left B (by omega)
+  have e : B * (r / B + 1) = B * (r / B) + B := by ring
+  omega
+
+theorem writeAll_succ (t B P : Nat) : writeAll t B (P + 1) = (writeAll t B P).set t (P % B) P := by
+  unfold writeAll writeRows
+  simp only [Nat.sub_zero, Nat.zero_add]
+  rw [List.range_succ, List.foldl_append]
+  rfl
+
+/-- after the producer has written rows `[0, P)` in order into a buffer of `B` rows, slot `r mod B`
+    still holds row `r` iff `r < P ≤ r + B` -/
+theorem slot_holds_iff (t B : Nat) (hB : 0 < B) (P r : Nat) :
+    (writeAll t B P).get t (r % B) = some r ↔ r < P ∧ P ≤ r + B := by
+  induction P with
+  | zero => simp [writeAll, writeRows, Mem.get]
+  | succ P ih =>
+    rw [writeAll_succ]
+    by_cases hs : r % B = P % B
+    · rw [hs, Mem.get_set_same]
+      constructor
+      · intro h; injection h with h; subst h; omega
+      · rintro ⟨h1, h2⟩
+        by_cases hrp : r = P
+        · rw [hrp]
+        · have := lt_congr_add_le B r P hB hs (by omega)
+          omega
+    · rw [Mem.get_set_other _ _ _ _ _ hs, ih]
+      constructor
+      · rintro ⟨h1, h2⟩
+        refine ⟨by omega, ?_⟩
+        by_contra hc
+        have hP : P = r + B := by omega
+        rw [hP, Nat.add_mod_right] at hs
+        exact hs rfl
+      · rintro ⟨h1, h2⟩
+        have : r ≠ P := by intro h; rw [h] at hs; exact hs rfl
+        omega
+
+
+end VelaVerif.Receptive
